@@ -21,6 +21,11 @@
 (*   Compute       Mininec.compute = FillZ ; ApplyLoads ; FillRhs ; Solve   *)
 (*   FarField(r)   compute_far_field with request r                         *)
 (*   NearField(r)  compute_near_field with request r                       *)
+(*   SetV(x)       the user changes the generator voltages (Excitation      *)
+(*                 .voltage); nothing is invalidated -- compute fills the   *)
+(*                 right-hand side anew every time                          *)
+(*   AddLoad       register_load of one more lumped load between computes   *)
+(*                 (compute adds the loads onto a freshly filled matrix)    *)
 (* The sweep loop of main() is the behaviour (SetF ; Compute ; NearField ;  *)
 (* FarField)*.                                                             *)
 (***************************************************************************)
@@ -32,7 +37,11 @@ CONSTANTS Freqs,          \* set of frequencies (naturals > 0)
           NFReqs,         \* near-field requests
           MaxLen,         \* bound on the length of a history
           ZintSurvives,   \* TRUE: SetF leaves Geobj.zint alone (code before the repair)
-          AllowRaw        \* TRUE: the sub-steps of compute are public actions, too
+          AllowRaw,       \* TRUE: the sub-steps of compute are public actions, too
+          Volts,          \* voltage settings of the generators (1 = as constructed)
+          MaxLoads,       \* how many lumped loads may be added after construction
+          ZKept           \* TRUE: compute keeps a matrix that is already there ("it depends on geometry
+                          \*   and frequency only") -- a variant the code does NOT implement
 
 None == 0                     \* 'no frequency' (rhs, zint)
 NoneR == [none |-> TRUE]      \* 'no result' (Z, cur, ff, nf)
@@ -41,35 +50,40 @@ VARIABLES f,      \* current frequency
           Z,      \* None or [at, nload, zi]: frequency of the fill, number of times the
                   \*   loads were added since, zint values (fill frequency per wire) used
           rhs,    \* None or frequency
-          cur,    \* None or [z, r]: provenance of the solved currents (and power)
+          v,      \* current voltage setting
+          rv,     \* voltage setting the right-hand side was filled with
+          ld,     \* number of lumped loads added after construction
+          cur,    \* None or [z, r, v]: provenance of the solved currents (and power)
           zint,   \* [Wires -> Freqs \cup {None}] fill frequency of the skin-effect cache
           zins,   \* [Wires -> BOOLEAN] insulation cache filled (frequency independent)
           ff,     \* None or [c, at, req]
           nf,     \* None or [c, at, req]
           hist    \* history of public calls (observation only)
 
-vars == <<f, Z, rhs, cur, zint, zins, ff, nf, hist>>
+vars == <<f, Z, rhs, v, rv, ld, cur, zint, zins, ff, nf, hist>>
 
 Init ==
   /\ f \in Freqs
   /\ Z = NoneR /\ rhs = None /\ cur = NoneR
+  /\ v = 1 /\ rv = None /\ ld = 0
   /\ zint = [w \in Wires |-> None]
   /\ zins = [w \in Wires |-> FALSE]
   /\ ff = NoneR /\ nf = NoneR
   /\ hist = << [op |-> "New", f |-> f] >>
 
 \* ---------------------------------------------------------------- state functions
-FillZ_(s)  == [s EXCEPT !.Z = [at |-> s.f, nload |-> 0, zi |-> [w \in Wires |-> None]]]
+FillZ_(s)  == [s EXCEPT !.Z = [at |-> s.f, nload |-> 0, zi |-> [w \in Wires |-> None], loads |-> 0]]
 ApplyLoads_(s) ==
   LET zi2 == [w \in Wires |-> IF s.zint[w] = None THEN s.f ELSE s.zint[w]] IN
   [s EXCEPT !.zint = zi2, !.zins = [w \in Wires |-> TRUE],
-            !.Z = [at |-> s.Z.at, nload |-> s.Z.nload + 1, zi |-> zi2]]
-FillRhs_(s) == [s EXCEPT !.rhs = s.f]
-Solve_(s)   == [s EXCEPT !.cur = [z |-> s.Z, r |-> s.rhs]]
-Compute_(s) == Solve_(FillRhs_(ApplyLoads_(FillZ_(s))))
+            !.Z = [at |-> s.Z.at, nload |-> s.Z.nload + 1, zi |-> zi2, loads |-> s.ld]]
+FillRhs_(s) == [s EXCEPT !.rhs = s.f, !.rv = s.v]
+Solve_(s)   == [s EXCEPT !.cur = [z |-> s.Z, r |-> s.rhs, v |-> s.rv]]
+Compute_(s) == Solve_(FillRhs_(ApplyLoads_(IF ZKept /\ s.Z # NoneR THEN s ELSE FillZ_(s))))
 
-St == [f |-> f, Z |-> Z, rhs |-> rhs, cur |-> cur, zint |-> zint, zins |-> zins]
+St == [f |-> f, Z |-> Z, rhs |-> rhs, v |-> v, rv |-> rv, ld |-> ld, cur |-> cur, zint |-> zint, zins |-> zins]
 Set(s) == /\ f' = s.f /\ Z' = s.Z /\ rhs' = s.rhs /\ cur' = s.cur
+          /\ v' = s.v /\ rv' = s.rv /\ ld' = s.ld
           /\ zint' = s.zint /\ zins' = s.zins
 
 Room == Len(hist) < MaxLen
@@ -78,7 +92,7 @@ Room == Len(hist) < MaxLen
 DoSetF(x) ==
   /\ f' = x /\ Z' = NoneR /\ rhs' = None
   /\ zint' = IF ZintSurvives THEN zint ELSE [w \in Wires |-> None]
-  /\ UNCHANGED <<cur, zins, ff, nf>>       \* the currents survive ("self.currents = None")
+  /\ UNCHANGED <<v, rv, ld, cur, zins, ff, nf>>       \* the currents survive ("self.currents = None")
 SetF(x) ==
   /\ Room
   /\ DoSetF(x)
@@ -90,17 +104,30 @@ Compute ==
   /\ UNCHANGED <<ff, nf>>
   /\ hist' = Append(hist, [op |-> "Compute", f |-> f])
 
-\* field requests are well-formed only after a compute at the current frequency
-CurrentIsCurrent == cur # NoneR /\ cur.r = f /\ cur.z # NoneR /\ cur.z.at = f
+SetV(x) ==
+  /\ Room /\ x # v
+  /\ v' = x
+  /\ UNCHANGED <<f, Z, rhs, rv, ld, cur, zint, zins, ff, nf>>
+  /\ hist' = Append(hist, [op |-> "SetV", f |-> f, v |-> x])
+AddLoad ==
+  /\ Room /\ ld < MaxLoads
+  /\ ld' = ld + 1
+  /\ UNCHANGED <<f, Z, rhs, v, rv, cur, zint, zins, ff, nf>>
+  /\ hist' = Append(hist, [op |-> "AddLoad", f |-> f, n |-> ld + 1])
+
+\* field requests are well-formed only after a compute at the current frequency with the current
+\* voltages and loads
+CurrentIsCurrent == /\ cur # NoneR /\ cur.r = f /\ cur.z # NoneR /\ cur.z.at = f
+                    /\ cur.v = v /\ cur.z.loads = ld
 FarField(r) ==
   /\ Room /\ CurrentIsCurrent
   /\ ff' = [c |-> cur, at |-> f, req |-> r]
-  /\ UNCHANGED <<f, Z, rhs, cur, zint, zins, nf>>
+  /\ UNCHANGED <<f, Z, rhs, v, rv, ld, cur, zint, zins, nf>>
   /\ hist' = Append(hist, [op |-> "FarField", f |-> f, req |-> r])
 NearField(r) ==
   /\ Room /\ CurrentIsCurrent
   /\ nf' = [c |-> cur, at |-> f, req |-> r]
-  /\ UNCHANGED <<f, Z, rhs, cur, zint, zins, ff>>
+  /\ UNCHANGED <<f, Z, rhs, v, rv, ld, cur, zint, zins, ff>>
   /\ hist' = Append(hist, [op |-> "NearField", f |-> f, req |-> r])
 
 \* raw sub-steps (public methods as well; used by the trace specification)
@@ -116,6 +143,8 @@ RawSolve      == Room /\ AllowRaw /\ Z # NoneR /\ rhs # None /\ Set(Solve_(St)) 
 Next ==
   \/ \E x \in Freqs : SetF(x)
   \/ Compute
+  \/ \E x \in Volts : SetV(x)
+  \/ AddLoad
   \/ \E r \in FFReqs : FarField(r)
   \/ \E r \in NFReqs : NearField(r)
   \/ RawFillZ \/ RawApplyLoads \/ RawFillRhs \/ RawSolve
@@ -124,21 +153,22 @@ Spec == Init /\ [][Next]_vars
 
 \* ---------------------------------------------------------------- properties
 \* provenance of what a FRESH object computes at frequency x
-FreshZ(x)   == [at |-> x, nload |-> 1, zi |-> [w \in Wires |-> x]]
-FreshCur(x) == [z |-> FreshZ(x), r |-> x]
+FreshZ(x, n)      == [at |-> x, nload |-> 1, zi |-> [w \in Wires |-> x], loads |-> n]
+FreshCur(x, vv, n) == [z |-> FreshZ(x, n), r |-> x, v |-> vv]
 
 \* a history is "compute style" when it never uses the raw sub-steps
-ComputeStyle == \A k \in 1..Len(hist) : hist[k].op \in {"New", "SetF", "Compute", "FarField", "NearField"}
+ComputeStyle == \A k \in 1..Len(hist) :
+                  hist[k].op \in {"New", "SetF", "SetV", "AddLoad", "Compute", "FarField", "NearField"}
 
 \* C14: what compute leaves behind equals what a fresh object would compute
 \* (no stale cache, loads applied exactly once, matrix / rhs of this frequency)
 NoStaleUse ==
-  (ComputeStyle /\ hist[Len(hist)].op = "Compute") => cur = FreshCur(f)
+  (ComputeStyle /\ hist[Len(hist)].op = "Compute") => cur = FreshCur(f, v, ld)
 \* field results are functions of (model, frequency, request) only
 FieldsFresh ==
   ComputeStyle =>
-    /\ (ff # NoneR => ff.c = FreshCur(ff.at))
-    /\ (nf # NoneR => nf.c = FreshCur(nf.at))
+    /\ (ff # NoneR => ff.c = FreshCur(ff.at, ff.c.v, ff.c.z.loads))
+    /\ (nf # NoneR => nf.c = FreshCur(nf.at, nf.c.v, nf.c.z.loads))
 \* repeated / reordered requests: a field result never depends on the other
 \* field result (they are separate variables written only by their own action)
 RequestsIndependent ==
